@@ -212,21 +212,27 @@ def check_substitute_parameters(tree):
     loops = [s for s in body[1:] if isinstance(s, ast.For)]
     if len(loops) != 2 or len(body) != 3:
         return "expected validation + two loops"
-    want = [("layout.steps", {"step.expected_command", "step.expected_materials", "step.expected_products"}),
-            ("layout.inspect", {"inspection.run", "inspection.expected_materials", "inspection.expected_products"})]
-    for lp, (it, targets) in zip(loops, want):
-        if ast.unparse(lp.iter) != it:
-            return "loop over %s expected, got %s" % (it, ast.unparse(lp.iter))
-        assigned = set()
-        for s in lp.body:
-            if isinstance(s, ast.Assign) and isinstance(s.targets[0], ast.Attribute):
-                assigned.add(ast.unparse(s.targets[0]))
-        if assigned != targets:
-            return "assigned attributes %r, expected %r" % (sorted(assigned), sorted(targets))
-        fmts = [n for n in ast.walk(lp) if isinstance(n, ast.Call) and isinstance(n.func, ast.Attribute) and n.func.attr == "format"]
-        if len(fmts) != 3 or any(ast.unparse(f) not in ("stanza.format(**parameter_dictionary)", "argv.format(**parameter_dictionary)")
-                                 for f in fmts):
-            return "format calls in the loop over %s: %r" % (it, [ast.unparse(f) for f in fmts])
+
+    def template(var, it, cmd_attr, cmd_var):
+        rules = ""
+        for attr, acc in (("expected_materials", "new_material_rules"), ("expected_products", "new_product_rules")):
+            rules += ("    %s = []\n    for rule in %s.%s:\n        new_rule = []\n        for stanza in rule:\n"
+                      "            new_rule.append(stanza.format(**parameter_dictionary))\n        %s.append(new_rule)\n"
+                      % (acc, var, attr, acc))
+        return ("for %s in %s:\n" % (var, it) + rules +
+                "    %s = []\n    for argv in %s.%s:\n        %s.append(argv.format(**parameter_dictionary))\n"
+                % (cmd_var, var, cmd_attr, cmd_var) +
+                "    %s.%s = %s\n    %s.expected_materials = new_material_rules\n    %s.expected_products = new_product_rules"
+                % (var, cmd_attr, cmd_var, var, var))
+    want = [template("step", "layout.steps", "expected_command", "new_expected_command"),
+            template("inspection", "layout.inspect", "run", "new_run")]
+    for lp, w in zip(loops, want):
+        got = ast.unparse(lp)
+        if got != w:
+            gl, wl = got.split("\n"), w.split("\n")
+            for i in range(max(len(gl), len(wl))):
+                if i >= len(gl) or i >= len(wl) or gl[i] != wl[i]:
+                    return "loop '%s' differs from the modelled shape at line %d: %r" % (wl[0], i, gl[i] if i < len(gl) else "<end>")
     return None
 
 
